@@ -111,9 +111,9 @@ CHECKS = {
     "C17": dict(
         engine="E3",
         category="exploration",
-        text="Seeded deterministic simulation (engine E3 on E1): a real MessageReceiver/Reader/Writer node of a secure participant L carrying the real builtin security plugins (signed governance and permissions fixtures: rtps_protection_kind NONE / SIGN / ENCRYPT / with origin authentication; eight topics covering metadata protection NONE / SIGN / ENCRYPT / with origin authentication and data protection NONE / SIGN / ENCRYPT), 2-5 readers and 0-2 writers matched with endpoints of a second, authenticated plugin set R (handshake, permission validation and key exchange by plugin calls). The simulator owns the wire: 10-40 messages of DATA / DATAFRAG / HEARTBEAT / GAP / ACKNACK with explicit or unknown entity ids and INFO_TS / INFO_DST / INFO_SRC in between; each submessage and payload unprotected, protected by R as demanded, or protected with the keys of another endpoint pair; secure prefix / body / postfix dropped, doubled, swapped, replaced by or mixed with parts of earlier messages and plaintext; bits flipped in key ids, nonces, MACs, ciphertext and signed content; sent plain or inside R's RTPS-level protection (intact or damaged), under R's or another GUID prefix. Oracle: a reference model computes, per message and endpoint, whether the message contains anything protected by R for exactly that endpoint pair at every level the governance demands (an over-approximation of what may be accepted); every endpoint with a protection requirement for which it contains nothing of the kind is bit-for-bit unchanged by the message (writer/reader proxies, counters, assembly buffers, receive cache compared before and after); honest traffic for a topic without protection is delivered.",
+        text="Seeded deterministic simulation (engine E3 on E1): a real MessageReceiver/Reader/Writer node of a secure participant L carrying the real builtin security plugins (signed governance and permissions fixtures: rtps_protection_kind NONE / SIGN / ENCRYPT / with origin authentication; eight topics covering metadata protection NONE / SIGN / ENCRYPT / with origin authentication and data protection NONE / SIGN / ENCRYPT), 2-5 user readers, 0-2 writers and, in domains with RTPS-level protection, the participant discovery reader (exempt) and the publication discovery reader (not exempt), matched with endpoints of a second, authenticated plugin set R (handshake, permission validation and key exchange by plugin calls). The simulator owns the wire: 10-40 messages of DATA / DATAFRAG / HEARTBEAT / GAP / ACKNACK with explicit or unknown entity ids and INFO_TS / INFO_DST / INFO_SRC in between; each submessage and payload unprotected, protected by R as demanded, or protected with the keys of another endpoint pair; wrappers made up by somebody without keys (a prefix seen on the wire with another transformation kind around plaintext); a writer of a third participant with the entity id of one of R's writers; secure prefix / body / postfix dropped, doubled, swapped, replaced by or mixed with parts of earlier messages and plaintext; bits flipped in key ids, nonces, MACs, ciphertext and signed content; sent plain or inside R's RTPS-level protection (intact or damaged), under R's or another GUID prefix. Oracle: a reference model computes, per message and endpoint, whether the message contains anything protected by R for exactly that endpoint pair at every level the governance demands (an over-approximation of what may be accepted); every endpoint with a protection requirement for which it contains nothing of the kind is bit-for-bit unchanged by the message (writer/reader proxies, counters, assembly buffers, receive cache compared before and after); honest traffic for a topic without protection, and plain traffic for the exempt participant discovery reader, is delivered. The model goes by what the signed documents say, not by the attributes the plugins derived from them.",
         design_ref="DESIGN.md section 5 C17, section 12",
-        note="The three bootstrap endpoints the specification exempts are not on the node (every endpoint of L is a user endpoint), so the exemption itself is not exercised. SecureDiscovery is replaced by the sequence of plugin calls it makes (mirrored in /verif/facade/secnode.rs). Honest fully protected traffic is delivered in all runs (probe honest_protected_delivered), so the model's 'acceptable' sets are not vacuous; a run whose first honest protected sample does not arrive is a harness error. Damaged bytes are placed where cryptography covers them; bytes a receiver may ignore are C16's subject. Sensitivity: seven hand-made gate removals in message_receiver.rs (wrong protection set consulted, RTPS-level flag not set, crypto-handle/destination check skipped, reader-submessage gate, payload-decode fallback, unknown-entity-id filter, fall-through after a broken triple) are all reported within 20000 runs (DESIGN.md 12.8). No defect found on the tree.",
+        note="Of the three exempt bootstrap topics only participant discovery is on the node (the stateless and the key-exchange reader are not), with publication discovery as the non-exempt built-in neighbour. SecureDiscovery is replaced by the sequence of plugin calls it makes (mirrored in /verif/facade/secnode.rs). Honest fully protected traffic is delivered in all runs (probe honest_protected_delivered), so the model's 'acceptable' sets are not vacuous; a run whose first honest protected sample does not arrive is a harness error. Damaged bytes are placed where cryptography covers them; bytes a receiver may ignore are C16's subject. Sensitivity: nine hand-made changes to the gates in message_receiver.rs (wrong protection set consulted, RTPS-level flag not set, crypto-handle/destination check skipped, reader-submessage gate, payload-decode fallback, unknown-entity-id filter, fall-through after a broken triple, exemption list widened, participant discovery not exempt) are all reported within 20000 runs (DESIGN.md 12.8). No defect found on the tree.",
         technique=TECH + "; real receiver with real security plugins, simulator-owned wire (protection removal, mis-keying, sequencing faults, replay, bit flips), before/after state comparison against a reference model of acceptable traffic",
         replay="target-sec/debug/dst replay {path} -v",
     ),
